@@ -367,6 +367,7 @@ func (e *Engine) newOpaqueError(st *State, hint string) Value {
 // call's operands (same function + same operands => same bytes and length, 1..24 bytes), so that
 // determinism and history-independence of callers can be decided although the digits are not.
 func (e *Engine) appendOpaque(st *State, f *Frame, dst *SliceVal, ins ssa.Instruction, ret func(Value) int, key string, operands []Value) int {
+	key0 := key
 	for _, o := range operands {
 		if t, ok := o.(*Term); ok {
 			key += fmt.Sprintf("_%d", t.id)
@@ -379,6 +380,7 @@ func (e *Engine) appendOpaque(st *State, f *Frame, dst *SliceVal, ins ssa.Instru
 	st.assume(And(Sle(c64(1), n), Sle(n, c64(24))))
 	src := opaqueTokMem(key)
 	st.lastTokOperands = operands
+	st.tokLog = append(st.tokLog[:len(st.tokLog):len(st.tokLog)], tokRec{fn: key0, ops: operands})
 	dlen := c64(0)
 	m := memZero
 	if dst.obj != 0 {
@@ -572,6 +574,70 @@ func (e *Engine) harnessIntrinsic(st *State, f *Frame, fn *ssa.Function, name st
 			}
 		}
 		unsupp("vFmtInt: no such integer operand")
+	case "vTokMark":
+		return ret(c64(int64(len(st.tokLog))))
+	case "vStrTokIs":
+		// vStrTokIs(s, mark, i, kind, val): token i (from 0) appended by strconv since vTokMark()
+		// returned mark was produced by Append<kind> from the value val
+		mk, i, kind, val := asTerm(args[1]), asTerm(args[2]), asTerm(args[3]), asTerm(args[4])
+		if !mk.IsConst() || !i.IsConst() || !kind.IsConst() {
+			unsupp("vStrTokIs: symbolic index")
+		}
+		idx := int(mk.k + i.k)
+		if idx >= len(st.tokLog) {
+			return ret(tFalse)
+		}
+		rec := st.tokLog[idx]
+		want := map[uint64]string{1: "AppendInt", 2: "AppendUint", 3: "AppendFloat", 4: "AppendBool", 5: "AppendQuote", 6: "AppendFloat"}[kind.k]
+		crossInt := false
+		if rec.fn != want {
+			if (kind.k == 1 || kind.k == 2) && (rec.fn == "AppendInt" || rec.fn == "AppendUint") {
+				// the signed and the unsigned formatter agree exactly on values without the top bit
+				crossInt = true
+			} else {
+				return ret(tFalse)
+			}
+		}
+		t, ok := rec.ops[0].(*Term)
+		if !ok {
+			unsupp("vStrTokIs operand")
+		}
+		if t.w == 0 {
+			// bool operand
+			return ret(Eq(t, Not(Eq(val, c64(0)))))
+		}
+		ok2 := Eq(Resize(t, 64, false), val)
+		if crossInt {
+			ok2 = And(ok2, Sle(c64(0), val))
+		}
+		if kind.k == 3 || kind.k == 6 {
+			// shortest representation ('g', -1) at the element's own precision
+			bits := int64(32)
+			if kind.k == 6 {
+				bits = 64
+			}
+			want := []int64{'g', -1, bits}
+			for j, w := range want {
+				o, isT := rec.ops[1+j].(*Term)
+				if !isT {
+					unsupp("vStrTokIs float operand")
+				}
+				ok2 = And(ok2, Eq(Resize(o, 64, true), c64(w)))
+			}
+		}
+		if kind.k == 1 || kind.k == 2 {
+			// base 10
+			if b, isT := rec.ops[1].(*Term); isT {
+				ok2 = And(ok2, Eq(Resize(b, 64, false), c64(10)))
+			}
+		}
+		return ret(ok2)
+	case "vStrTokCount":
+		mk := asTerm(args[1])
+		if !mk.IsConst() {
+			unsupp("vStrTokCount: symbolic mark")
+		}
+		return ret(c64(int64(uint64(len(st.tokLog)) - mk.k)))
 	case "vTokOperand":
 		// operand k (from 0) of the most recent strconv.Append* call
 		k := asTerm(args[0])
